@@ -301,6 +301,9 @@ func Check[C any](t *testing.T, id string, gen func(*rapid.T) C, run func(C) *Ve
 		v := safeRun(run, cs)
 		cj, _ := json.Marshal(cs)
 		c.record(cj, v)
+		if v.Violation != "" && v.Signature == "harness" {
+			rt.Fatalf("HARNESS-ERROR property=%s: %s", id, v.Violation)
+		}
 		if v.Violation != "" {
 			if f := KnownFinding(id, v.Signature); f != nil {
 				c.mu.Lock()
